@@ -21,7 +21,7 @@
    to the universe (c < length (ocls m)) and fuel >= the number of objects
    (the model uses that number + 1), eAllContents enumerates exactly the
    strict descendants, each once.
-   For REACHABLE states (Proofs/Acyclic.v; last theorem of this file) acyclicity
+   For REACHABLE states (Proofs/Acyclic.v; theorems at the end of this file) acyclicity
    and the universe bound are no longer premises: along every history whose
    calls satisfy fits_history -- collection calls address a many-valued
    feature, the written objects exist (< length (ocls m)), and no call would
@@ -221,7 +221,8 @@ Theorem C19_eallcontents_exactly_the_descendants_once_in_every_reachable_state :
   forall m, wf_mm m -> ref_defaults_none m -> forall ops,
   fits_history m (init_state m) ops ->
   forall fuel o, length (ocls m) <= fuel ->
-    NoDup (eallcontents fuel m (reach m ops) o) /    (forall c, In c (eallcontents fuel m (reach m ops) o) <-> descends m (reach m ops) o c).
+    NoDup (eallcontents fuel m (reach m ops) o) /\
+    (forall c, In c (eallcontents fuel m (reach m ops) o) <-> descends m (reach m ops) o c).
 Proof. exact reach_eallcontents_exact. Qed.
 Print Assumptions C19_eallcontents_exactly_the_descendants_once_in_every_reachable_state.
 
@@ -235,10 +236,15 @@ Print Assumptions C19_checked_histories_fit.
 (* a fitting history with a re-parenting, a move through the container end, Resource.append
    of a contained object, an assignment, a failing remove and `del` of the container end *)
 Example C19_fits_history_witness :
-  fits_history ex_mm_tree (init_state ex_mm_tree) ex_tree_history /  (let s := reach ex_mm_tree (firstn 5 ex_tree_history) in
-   cont s 1 = Some (0, 0) /\ cont s 2 = Some (1, 0) /\ cont s 3 = Some (2, 0) /   eallcontents 5 ex_mm_tree s 0 = [1; 2; 3]) /  (let s := reach ex_mm_tree (firstn 6 ex_tree_history) in
-   cont s 2 = None /\ rcont s 0 = [2] /\ vals s (1, 0) = [] /\ eresource_of ex_mm_tree s 3 = Some 0) /  (let s := reach ex_mm_tree ex_tree_history in
-   cont s 1 = None /\ cont s 2 = Some (0, 0) /\ cont s 3 = None /\ rcont s 0 = [] /   vals s (2, 0) = [] /\ eallcontents 5 ex_mm_tree s 0 = [2]).
+  fits_history ex_mm_tree (init_state ex_mm_tree) ex_tree_history /\
+  (let s := reach ex_mm_tree (firstn 5 ex_tree_history) in
+   cont s 1 = Some (0, 0) /\ cont s 2 = Some (1, 0) /\ cont s 3 = Some (2, 0) /\
+   eallcontents 5 ex_mm_tree s 0 = [1; 2; 3]) /\
+  (let s := reach ex_mm_tree (firstn 6 ex_tree_history) in
+   cont s 2 = None /\ rcont s 0 = [2] /\ vals s (1, 0) = [] /\ eresource_of ex_mm_tree s 3 = Some 0) /\
+  (let s := reach ex_mm_tree ex_tree_history in
+   cont s 1 = None /\ cont s 2 = Some (0, 0) /\ cont s 3 = None /\ rcont s 0 = [] /\
+   vals s (2, 0) = [] /\ eallcontents 5 ex_mm_tree s 0 = [2]).
 Proof. exact fits_history_witness. Qed.
 Print Assumptions C19_fits_history_witness.
 
